@@ -251,7 +251,7 @@ def main(run):
             if run.held_n % 15 == 1:
                 run.sample({"argv": case["argv"], "exit": rc, "files_written": new, "kind": job["kind"], "label": job.get("label")}, limit=6)
     shutil.rmtree(root, ignore_errors=True)
-    return run.finish(floor=FLOOR if run.tier == "quick" else {k: v * 15 for k, v in FLOOR.items()})
+    return run.finish(floor=FLOOR if run.tier == "quick" else {k: (v * 15 if k != "failure-cases" else v * 3) for k, v in FLOOR.items()})
 
 
 def replay(run, rec):
